@@ -311,7 +311,173 @@ WORKLOADS = [
     # witnesses of memory-safety defects found by other properties (fixed in /repo; replayed for regression)
     "W R (mul (pow (d 4000000000000000) x) (pow (d 4000000000000000) (sub (i 3) x))) ;; R (mul (pow (i 2) x) (pow (i 2) (sub (d 4000000000000000) x))) ;; R (mul (pow (i 0) x) (pow (i 0) (sub (i -1) x)))",
     "W sieve 1 100000 ;; sieveit ;; upzero ;; fdiffw ;; ptext 7e78 ;; ptext 782026207920 ;; ptext 78207c2079",
+    # known finding (C27/unbounded-recursion, here C40/workload-crash:set-operation-unbounded-recursion): Reals::set_union ->
+    # Intersection::set_union -> set_intersection -> set_union -> ... until the stack overflows
+    "W R x ;; R (union reals (isect reals (fset x y))) ;; str 0",
 ]
+
+
+# ------------------------------------------------------------------ resource-exhaustion guard for generated workload recipes
+# Exact powers / factorials whose result cannot be represented are not memory-safety inputs: GMP answers an unrepresentable size with
+# abort() ("gmp: overflow in mpz type", SIGABRT), an allocation failure, hours of computation, or -- libgmp 6.2.1, mpz_n_pow_ui, when the
+# base has k low zero limbs and k*e >= 2^63: `ralloc + rtwos_limbs` wraps negative, MPZ_NEWALLOC keeps the dummy limb and MPN_ZERO faults
+# (SIGSEGV inside libgmp; e.g. pow(2^64, 2^63), pow(2^128, 2^62)).  All of these are the same class "exact result of 2^60 and more bits";
+# the workload generator stays below RESULT_BITS_LIMIT bits for every exact power and below GAMMA_ARG_LIMIT for factorial-like arguments.
+# Exponents that do not fit an unsigned long (|e| >= 2^64) are kept: the library rejects them with an exception (a path worth running).
+RESULT_BITS_LIMIT = 1 << 22
+GAMMA_ARG_LIMIT = 1 << 12
+_HUGE = 1 << 200          # saturation value of the bit bounds
+
+
+def _sexp(s):
+    toks = re.findall(r"\(|\)|[^\s()]+", s)
+    pos = [0]
+
+    def rd():
+        t = toks[pos[0]]
+        pos[0] += 1
+        if t != "(":
+            return t
+        out = []
+        while toks[pos[0]] != ")":
+            out.append(rd())
+        pos[0] += 1
+        return out
+    return rd()
+
+
+def _qbits(q):
+    """height of an exact rational in bits; 0 for 0, 1, -1 (powers of those never grow)"""
+    if q.denominator == 1 and abs(q.numerator) <= 1:
+        return 0
+    return max(abs(q.numerator), q.denominator).bit_length()
+
+
+class _Unsafe(Exception):
+    pass
+
+
+def _nonfinite_double_inside(e):
+    if not isinstance(e, list) or not e:
+        return False
+    if e[0] in ("d", "cd"):
+        return any(((int(t, 16) >> 52) & 0x7ff) == 0x7ff for t in e[1:])
+    return any(_nonfinite_double_inside(a) for a in e[1:])
+
+
+def _absval(e):
+    """abstract value of a recipe: ("q", Fraction) = exactly this rational; ("h", n) = any expression whose exact numeric
+    value/coefficients have numerators and denominators below 2^n.  Raises _Unsafe on a possibly unrepresentable exact result."""
+    from fractions import Fraction
+
+    def h(v):
+        return _qbits(v[1]) if v[0] == "q" else v[1]
+
+    def sat(n):
+        return min(n, _HUGE)
+    if not isinstance(e, list):
+        return ("h", 0)            # symbols, constants, infinities, flags
+    if not e:
+        return ("h", 0)
+    op = e[0]
+    if op == "i":
+        return ("q", Fraction(int(e[1])))
+    if op == "q":
+        return ("q", Fraction(int(e[1]), int(e[2]))) if int(e[2]) != 0 else ("h", 0)
+    if op == "c":
+        return ("h", max(abs(int(t)) for t in e[1:5]).bit_length())
+    if op in ("d", "cd", "s", "dum"):
+        return ("h", 0)
+    leafarg = [isinstance(a, list) and a and a[0] in ("i", "q") for a in e[1:]]
+    if op in ("f1", "f2", "fs"):
+        name = e[1]
+        args = [_absval(a) for a in e[2:]]
+        leafarg = leafarg[1:]
+        if op == "fs":
+            return ("h", sat(max([h(a) for a in args] + [0])))
+        if name in ("gamma", "beta", "polygamma", "loggamma", "lowergamma", "uppergamma", "zeta", "dirichlet_eta"):
+            big = 0
+            for a, lf in zip(args, leafarg):
+                if a[0] == "q":
+                    m = abs(a[1].numerator) + a[1].denominator
+                    fits = m < (1 << 64)
+                else:
+                    m = 1 << min(a[1], 300)
+                    fits = True
+                    lf = False
+                # literal arguments beyond an unsigned long are rejected by the library with an exception (kept); everything else must
+                # stay small (gamma(2^63), beta(2^63, -1/2): GMP abort in the factorial)
+                if m > GAMMA_ARG_LIMIT and (not lf or fits):
+                    raise _Unsafe("%s of a possibly exact argument above %d" % (name, GAMMA_ARG_LIMIT))
+                big = max(big, m if m <= GAMMA_ARG_LIMIT else 0)
+            return ("h", sat(2 * big * big + 17 * big + 1 + max([h(a) for a in args] + [0])))
+        if name in ("abs", "conjugate", "sign", "floor", "ceiling", "truncate") and len(args) == 1:
+            a = args[0]
+            if a[0] == "q":
+                if name == "abs":
+                    return ("q", abs(a[1]))
+                if name == "conjugate":
+                    return a
+                return ("h", _qbits(a[1]))
+            # floor of a double is an exact integer of up to 1024 bits
+            return ("h", sat(max(a[1], 1100 if name in ("floor", "ceiling", "truncate") else 0)))
+        return ("h", sat(max([h(a) for a in args] + [0])))
+    args = [_absval(a) for a in e[1:]]
+    if op == "neg" and len(args) == 1:
+        return ("q", -args[0][1]) if args[0][0] == "q" else args[0]
+    if op in ("add", "sub", "mul", "div") and len(args) == 2:
+        a, b = args
+        if a[0] == "q" and b[0] == "q":
+            if op == "add":
+                return ("q", a[1] + b[1])
+            if op == "sub":
+                return ("q", a[1] - b[1])
+            if op == "mul":
+                return ("q", a[1] * b[1])
+            return ("q", a[1] / b[1]) if b[1] != 0 else ("h", 0)
+        return ("h", sat(h(a) + h(b) + 1))
+    if op in ("pow", "sqrt", "cbrt", "exp"):
+        if op == "pow" and len(args) == 2:
+            a, b = args
+        elif op == "sqrt":
+            a, b = args[0], ("q", Fraction(1, 2))
+        elif op == "cbrt":
+            a, b = args[0], ("q", Fraction(1, 3))
+        else:
+            return ("h", h(args[0]) + 1)
+        ha = h(a)
+        if op == "pow" and _nonfinite_double_inside(e[2]) and not (isinstance(e[1], str) and e[1] in ("x", "y", "z", "w", "ab")):
+            # toolchain artefact, not a library defect: RealDouble::rpow -> std::pow(std::complex<double>, double) with an infinite or NaN
+            # exponent computes std::polar(NaN, ..) inside libstdc++, whose hardened build (-D_GLIBCXX_ASSERTIONS, used for the library
+            # under test) aborts on the assertion `__rho >= 0`: pow(I, inf), pow(-1.0, inf), pow(1/2 - 3/4 I, nan)
+            raise _Unsafe("non-finite double exponent")
+        if b[0] == "q":
+            ex = b[1]
+            if ex.denominator == 1:
+                n = abs(ex.numerator)
+                if n >= (1 << 64):
+                    return ("h", sat(ha + 1))      # exponent beyond unsigned long: exception, or a symbolic power
+                if a[0] == "q" and ha * n <= 4096 and not (a[1] == 0 and ex < 0):
+                    return ("q", a[1] ** int(ex))
+            else:
+                n = abs(ex.numerator) // ex.denominator + 1
+        else:
+            n = 1 << min(b[1], 300)
+        bits = ha * n
+        if bits > RESULT_BITS_LIMIT:
+            raise _Unsafe("exact power of about %s bits" % (bits if bits < _HUGE else "2^200+"))
+        return ("h", sat(bits + 1))
+    # everything else (addv, mulv, max, min, relations, boolean operators, sets, piecewise, ...): coefficients combine at most additively
+    return ("h", sat(sum(h(a) for a in args) + len(args)))
+
+
+def recipe_safe(r):
+    """False when evaluating recipe r may need an exact number beyond the representable/affordable size (see above)"""
+    try:
+        _absval(_sexp(r))
+        return True
+    except _Unsafe:
+        return False
 
 
 # ------------------------------------------------------------------ correspondence
@@ -415,6 +581,42 @@ def explore(ctx, drv, model, progs, stats, search=False):
                                        msteps[k] if k < len(msteps) else ml[:300], isteps[k] if k < len(isteps) else canon[:300])})
 
 
+SET_OPS = ("union", "isect", "compl")
+SET_RECURSION_KEY = "C40/workload-crash:set-operation-unbounded-recursion"
+
+
+def nested_set_operation(recipe):
+    """a set operation applied to (at least) one set operation: the shape of the known unbounded set_union/set_intersection/
+    set_complement recursion (known finding C27/unbounded-recursion)"""
+    try:
+        e = _sexp(recipe)
+    except Exception:
+        return False
+    return (isinstance(e, list) and bool(e) and e[0] in SET_OPS and
+            any(isinstance(a, list) and a and a[0] in SET_OPS for a in e[1:]))
+
+
+def classify_workload_crash(ctx, drv, cfg, l):
+    """Narrow key for ONE known class, everything else keeps the generic key: the crash is reproduced by a single recipe of the workload
+    on its own, every recipe that crashes on its own is a nested set operation, and the crash is a stack overflow (SIGSEGV on the rel
+    build, `AddressSanitizer: stack-overflow` on the asan build).  Returns (key, minimal workload, what) or None."""
+    recipes = [op[2:] for op in l[2:].split(" ;; ") if op.startswith("R ")]
+    if not recipes:
+        return None
+    single = ["W R " + r for r in recipes]
+    res = ctx.run_lines(drv, single, timeout=600)
+    bad = [(w, r, o.partition("\t#ORACLE:")[0]) for w, r, o in zip(single, recipes, res)
+           if "CRASH" in o or "HANG" in o or "UNCAUGHT" in o or o.startswith("NOOUTPUT")]
+    if not bad:
+        return None
+    for w, r, o in bad:
+        overflow = ("AddressSanitizer: stack-overflow" in o) if cfg == "asan" else (o.strip() == "CRASH:11")
+        if not (overflow and nested_set_operation(r)):
+            return None
+    w, r, o = bad[0]
+    return (SET_RECURSION_KEY, w, o[o.find("CRASH"):][:200])
+
+
 def run_workloads(ctx, drv, cfg, lines, stats):
     if drv is None or not lines:
         return
@@ -424,7 +626,19 @@ def run_workloads(ctx, drv, cfg, lines, stats):
         canon, _, oracle = r.partition("\t#ORACLE:")
         if "CRASH" in canon or "HANG" in canon or "UNCAUGHT" in canon or canon.startswith("NOOUTPUT"):
             what = canon[canon.find("CRASH"):][:200] if "CRASH" in canon else canon[-60:]
-            ctx.violation("C40/workload-crash:" + cfg, "workload `%s` on the %s build ended with %s" % (l, cfg, what),
+            # abort() with a message that names a non-memory cause (the driver appends the message to the marker); backstop of the static
+            # guard recipe_safe, e.g. for a NaN that arises by arithmetic and reaches std::pow(std::complex<double>, ..)
+            if "CRASH:6" in what and ("gmp: overflow in mpz type" in what or "GNU MP: Cannot allocate memory" in what):
+                stats["aborts_resource_exhaustion"] += 1
+                continue
+            if "CRASH:6" in what and "std::polar" in what and "Assertion '__rho >= 0' failed" in what:
+                stats["aborts_libstdcxx_polar_assertion"] += 1
+                continue
+            key = "C40/workload-crash:" + cfg
+            narrow = classify_workload_crash(ctx, drv, cfg, l)
+            if narrow:
+                key, l, what = narrow
+            ctx.violation(key, "workload `%s` on the %s build ended with %s" % (l, cfg, what),
                           {"family": "rcp-workload", "cfg": cfg, "case": l, "impl": canon[-300:]})
         elif oracle:
             key = "C40/workload-leak:" + cfg if "leak" in oracle.lower() or "Leak" in oracle else "C40/workload-nondeterministic"
@@ -442,7 +656,8 @@ def run(ctx):
     ctx.prove(proof_modules(), OBLIGATIONS)
     drv = ctx.build_driver("rcp_driver")
     model = build_model(ctx)
-    stats = {"unknown": 0, "steps": 0, "mismatch": 0, "nontrivial": set(), "workload_rel": 0, "workload_asan": 0}
+    stats = {"unknown": 0, "steps": 0, "mismatch": 0, "nontrivial": set(), "workload_rel": 0, "workload_asan": 0, "recipes_excluded": 0,
+             "aborts_resource_exhaustion": 0, "aborts_libstdcxx_polar_assertion": 0}
     n = 500 if ctx.tier == "quick" else 6000
     progs = list(CORPUS) + [gen_program(ctx.rng, ctx.tier) for _ in range(n)]
     explore(ctx, drv, model, progs, stats)
@@ -454,8 +669,16 @@ def run(ctx):
         from checks import exprcommon as X
         for _ in range(20 if ctx.tier == "quick" else 300):
             k = ctx.rng.randint(2, 5)
-            rs = [X.gen_arith(ctx.rng, ctx.rng.randint(1, 3)) if ctx.rng.random() < 0.7 else
-                  (X.gen_bool(ctx.rng, 2) if ctx.rng.random() < 0.5 else X.gen_set(ctx.rng, 2)) for _ in range(k)]
+            rs = []
+            for _ in range(k):
+                for attempt in range(40):
+                    r = (X.gen_arith(ctx.rng, ctx.rng.randint(1, 3)) if ctx.rng.random() < 0.7 else
+                         (X.gen_bool(ctx.rng, 2) if ctx.rng.random() < 0.5 else X.gen_set(ctx.rng, 2)))
+                    if recipe_safe(r):
+                        break
+                    stats["recipes_excluded"] += 1
+                    r = "x"
+                rs.append(r)
             ops = ["R " + r for r in rs]
             for i in range(len(rs)):
                 ops.append(ctx.rng.choice(["str %d", "prt %d", "ser %d", "parse %d", "fsyms %d"]) % i)
@@ -487,7 +710,18 @@ def run(ctx):
                        "one-entry dictionaries whose product key is held 1, 2 or 3 times (stealing threshold +-1); every program ends by dropping all handles; "
                        "evaluations = programs; a program is non-trivial when it mixes API/from_dict steps with aliasing steps (copy/move/from_this); "
                        "distinct = distinct program strings; after EVERY step: live-object count, slot contents, use_count of every reachable object and of "
-                       "the library constants are compared with the model")
+                       "the library constants are compared with the model; API workloads (testing): fixed list plus 2-5 generated arithmetic/"
+                       "boolean/set recipes followed by str/print/serialise/parse/free_symbols, each run twice in one process on the rel and the asan "
+                       "build; generated recipes are restricted to affordable exact arithmetic: a recipe is regenerated when a power may have an exact "
+                       "result above 2^22 bits (static bound: height of the base times the exponent; exponents beyond an unsigned long are kept, the "
+                       "library rejects them with an exception) or gamma/beta/polygamma may see an exact argument above 4096 -- such inputs end in "
+                       "GMP's abort(), an allocation failure or, in libgmp 6.2.1 for pow(2^64, 2^63), a fault inside mpz_n_pow_ui, none of which "
+                       "is a statement about the library's memory safety; powers of a non-symbol base whose exponent contains an infinite/NaN double "
+                       "literal are regenerated too (std::pow(std::complex<double>, double) of the hardened libstdc++ aborts on its own assertion "
+                       "`__rho >= 0` in std::polar for pow(I, inf))")
+    ctx.cov["workload_recipes_regenerated_for_size"] = stats["recipes_excluded"]
+    ctx.cov["workload_aborts_not_counted"] = {"gmp overflow / out of memory": stats["aborts_resource_exhaustion"],
+                                              "libstdc++ std::polar assertion (NaN radius inside std::pow)": stats["aborts_libstdcxx_polar_assertion"]}
     ctx.assumptions += [
         "the model covers the protocol as used through RCP handles; raw pointers and references (const Basic &) held across calls are outside it",
         "counters do not wrap (fewer than 2^32 handles to one object)",
@@ -495,6 +729,14 @@ def run(ctx):
         "API calls enter the model through their observed result graph (new objects and their member handles as read by the driver from Add/Mul/Pow/"
         "function/Derivative/Subs objects); programs that reach other classes are checked by the oracles only (count returns to baseline, immutability)",
         "memory safety of the C++ itself (out-of-bounds, uninitialised reads, UB) is not a property of the model: the sanitizer runs are testing",
+        "workloads stay within representable exact arithmetic: no exact power above 2^22 result bits and no factorial-like function of an exact "
+        "argument above 4096 (resource exhaustion -- GMP abort `overflow in mpz type`, out of memory, or the libgmp 6.2.1 mpz_n_pow_ui fault on "
+        "pow(2^64, 2^63), whose result would need 2^69 bits -- is outside the property: no such result exists to be computed)",
+        "the library under test is compiled with -D_GLIBCXX_ASSERTIONS: an abort on libstdc++'s internal assertion in std::pow(complex, double) "
+        "for an infinite/NaN double exponent (pow(I, inf)) is an artefact of that mode, not a memory error; such powers are not generated, and a "
+        "workload that still ends in SIGABRT with exactly that assertion message (NaN produced by arithmetic, e.g. pow(pow(0.0, I), 3)) or with GMP's "
+        "`overflow in mpz type` / `Cannot allocate memory` message is counted in workload_aborts_not_counted instead of being reported; any other "
+        "signal or message is a violation",
     ]
     ctx.cov["trusted_base"].append("hook H2 (live Basic object counter under SYMENGINE_VERIF in symengine/basic.h)")
 
